@@ -23,7 +23,7 @@ claim('C19', 'other',
       "standards x both header variants on the corner combinations; thorough: 2 compilers x 4 standards x 2 variants x "
       "all combinations); the shipped single header is byte-identical to a fresh tools/join.py run and to an independent "
       "re-implementation of the merge; per-feature differential comparison of the extracted facts shows that switching a "
-      "feature on only adds code that touches feature-owned state; the logging differential of C16 (bodies identical after erasing exactly the log statements) is an obligation here too.",
+      "feature on only adds code that touches feature-owned state; the logging differential of C16 (bodies identical after erasing exactly the log statements) is an obligation here too; the plan feature's code stays inside its own bit arrays for every id the library feeds into it (C19.d = C18.h).",
       "Trusted: clang 14 / gcc 12 front ends; witness w_core as the set of API uses that must compile. 'Observable "
       "behaviour unchanged' is decided as 'the feature-neutral functions have identical event summaries', not by running.",
       "feature-matrix type checking + byte-level translation validation of the amalgamation + differential AST facts",
@@ -46,13 +46,13 @@ claim('C14', 'proof',
       "template walker over the CS_ tree reached from R_::Apex shows every leaf k wraps S_k with STATE_ID == PRONG_INDEX "
       "== k and every split node partitions its range at R_PRONG; a structural rule over every instantiated CS_ "
       "dispatcher (branch on prong < R_PRONG, true->left, false->right, same kind, arguments unchanged) closes the "
-      "induction that wideX(control,k) reaches exactly leaf k; access<T>() is a derived-to-base conversion of the apex; library code never copy- or move-constructs a state object, so callbacks run on the object access<T>() names (C14.e).",
+      "induction that wideX(control,k) reaches exactly leaf k; access<T>() is a derived-to-base conversion of the apex; library code never copy- or move-constructs a state object, so callbacks run on the object access<T>() names (C14.e); no entry point dispatches enter/exit/reenter with the invalid prong (C14.c, observer shared with C01.a).",
       "Trusted: clang 14 / gcc 12 template instantiation and constant evaluation; the walker templates in gen/nfamily.py.",
       "static_assert obligations discharged by two compiler front ends + AST shape rule on dispatchers + flow rule for initial/requested prong",
       "DESIGN.md section 4 C14")
 
 claim('C15', 'other',
-      "Order rule on the CFGs of the instantiated S_ wrappers and A_ dispatchers: for states with 0..3 injections the "
+      "Order rule on the CFGs of the instantiated S_ wrappers and A_ dispatchers: for states with 0..3 injections (with and without own callbacks) the "
       "flattened sequence of resolved user callbacks is I1..Ik,state for set-up kinds and state,Ik..I1 for "
       "exit/postUpdate/postReact, each exactly once and unconditionally; the two A_ patterns and the S_ wrappers are "
       "checked as an induction step so every k is covered; every user callback is invoked through a qualified name, so no virtual override can reorder or replace a step (C15.c).",
@@ -64,7 +64,7 @@ claim('C17', 'other',
       "Decides the statement through its only possible causes in code of this shape: every scalar member of every FFSM2 "
       "record is definitely initialised by every constructor; hand-written copy/move constructors copy every base and "
       "member from the same base/member; copy/move construction of an automatically activated machine cannot reach "
-      "initialEnter; no mutable static state and no non-deterministic external call. No value depends on an address (no pointer<->integer casts, pointer ordering or identity tests other than null, C17.e); user bases of states are covered by the copy rule. Equality of two executions as such "
+      "initialEnter; no mutable static state and no non-deterministic external call. No value depends on an address (no pointer<->integer casts, pointer ordering or identity tests other than null, C17.e); user bases of states are covered by the copy rule; hand-written copies of the bit array are decided bit by bit for every capacity (C20.e refinement). Equality of two executions as such "
       "is not decided.",
       "Trusted: clang's constructor-initialiser lists incl. implicit ones; witnesses w_core/w_pay instantiate every class.",
       "definite-initialisation and copy-coverage rules over record/constructor facts + call-graph reachability",
@@ -86,7 +86,7 @@ claim('C02', 'other',
       "request only in the guarded loops. Order rules: processing last. Must-equality dataflow through processRequest / "
       "initialEnter: the state entered/re-entered is the destination of the transition shown to enter() as current, which is a "
       "whole copy of the pending transition of a round whose guards did not cancel; nothing survives => no callback, same active "
-      "state; requested is invalid at return. Comparison-domain evaluation of the de-duplication test. Only the four request writers and request processing write the request slot (C02.g); each writer replaces the whole request through the assignment operator of the request's own type.",
+      "state; requested is invalid at return. Comparison-domain evaluation of the de-duplication test. Only the four request writers and request processing write the request slot (C02.g); each writer replaces the whole request through the assignment operator of the request's own type. Processing continues up to the configured substitution limit and stops no earlier (C02.h, shares C04.a).",
       "Assumes A1-A3; guards are unknown booleans, callbacks havoc exactly the computed effect set of their control flavour.",
       "effect sets + CFG order rules + must-equality abstract interpretation + comparison-domain evaluation of the branch conditions that control a guard round (located by control dependence)",
       "DESIGN.md section 4 C02")
@@ -95,16 +95,16 @@ claim('C03', 'other',
       "Guard rounds interpreted with both outcomes at every guard: exit guard first on the active state, entry guard on the "
       "requested state, nothing consulted after a cancellation, fresh guard control per round bound to (current, pending), "
       "acceptance only on the not-cancelled edge; guard evaluation cannot reach enter/exit/reenter nor write the registry; "
-      "replay/load never reach guards; the wrappers' return expression is decided on the enumeration (flag at entry) x (which user callback cancels), C03.e.",
+      "replay/load never reach guards; the wrappers' return expression is decided on the enumeration (flag at entry) x (which user callback cancels), C03.e; cancelPendingTransition() sets the flag for every calling state, the root head (invalid id) included (comparison-domain evaluation).",
       "Assumes A1-A3.",
       "abstract interpretation with observer automaton + call-graph reachability + statement-wise evaluation of the wrappers on the (flag before, flag after) truth table",
       "DESIGN.md section 4 C03")
 
 claim('C04', 'other',
-      "Counted-loop rule on both substitution loops (bound == configured limit for limits 1,2,3,4,255; single increment; one "
+      "Counted-loop rule on both substitution loops (bound == the limit of the configuration type and of the witness declaration, for limits 1,2,3,4,255; single increment; one "
       "guard round per iteration; 8-bit counter cannot wrap), acyclic call graph, every other loop classified, end state at "
       "the limit covered by the C02.d/C01.a interpretation (loop exit edge with a request still outstanding), leftover request "
-      "only consumable through the guarded loops. The configured substitution limit survives every order of the configuration setters (C04.e, type-level).",
+      "only consumable through the guarded loops. The configured substitution limit survives every order of the configuration setters (C04.e, type-level). A veto always takes, whoever casts it (C04.f).",
       "Termination of the plan-list walks rests on list integrity (C10 residue).",
       "spelling-independent bounded-loop analysis (local counter, +1 on every iterating path, constant bound) + call-graph acyclicity + abstract interpretation",
       "DESIGN.md section 4 C04")
@@ -120,7 +120,7 @@ claim('C05', 'other',
 
 claim('C06', 'other',
       "Scoped-origin rule on every S_ wrapper (constructed from (control, STATE_ID) before and destroyed after the user code), "
-      "accessor return paths, constructor reference bindings of every control to the instance core, role tracking of the "
+      "accessor return paths, constructor reference bindings of every control to the instance core (the bound member is a reference, not a snapshot), role tracking of the "
       "pending/current transition objects into _pendingTransition/_currentTransition, exhaustive comparison-domain evaluation of "
       "every isActive(id) against active == id for every id including the invalid one (C06.d), request writers record _originId.",
       "Assumes A2. The comparison-domain evaluation is exhaustive because the checker first verifies the predicates only compare.",
@@ -141,7 +141,7 @@ claim('C20', 'other',
       "operator; the representation invariant 'bits >= CAPACITY are zero' is established by the constructor/clear() and "
       "preserved by every mutator (each storage write classified); whole-array operations cover the full extent; array "
       "accessor / iteration / emplace shapes. C20.e: for every capacity 1..255 and every index below it, bit-provenance abstract "
-      "interpretation of set(i)/clear(i)/get(i)/set()/clear()/&= shows each operation refines the set-of-integers model bit by bit "
+      "interpretation of set(i)/clear(i)/get(i)/set()/clear()/&= shows each operation refines the set-of-integers model bit by bit (hand-written copies included) "
       "and keeps the padding zero -- with the invariant, a simulation argument over every operation sequence. Element values of "
       "the fixed/growable arrays over sequences are NOT decided (accessor/iteration shapes only); per-operation effect summaries of the arrays and their iterators in the offset domain (C20.c) and type-level byte capacities for every N <= 255 (C20.f).",
       "A shape that is not recognised is analysis-broken (exit 2) unless the semantic rule C20.e decides that operation, in which case "
@@ -154,7 +154,7 @@ claim('C08', 'other',
       "is active, firing only under the success test of the same iterator and with the task origin as caller, remove after fire, "
       "exactly-once success consumption, deferred consumption after the scan; who-may-call and position of the plan step; the leaf "
       "status mapping on its truth table, maxima for the status operators; exhaustive comparison-domain evaluation of the scan's "
-      "activity predicate (origin 0 included); sibling agreement of the two specialisations (also as call sequences, C08.f); on effect summaries succeed(id)/fail(id) set exactly the bit of id and the cycle result, the parameterless forms report for the calling state (C08.h); clearTaskStatus clears both bits of its id unconditionally (C08.e); the plan-exists gate is set by append and cleared by the full reset only (C08.g) and the per-cycle status is reset after the plan step on every path (C08.i).",
+      "activity predicate (origin 0 included); sibling agreement of the two specialisations (also as call sequences, C08.f); on effect summaries succeed(id)/fail(id) set exactly the bit of id and the cycle result, the parameterless forms report for the calling state (C08.h); clearTaskStatus clears both bits of its id unconditionally (C08.e); the plan-exists gate is set by append and cleared by the full reset only (C08.g) and the per-cycle status is reset after the plan step on every path (C08.i); order across plan edits shares the link/unlink/iterator summaries of C10 (C08.j).",
       "The order in which tasks are visited relies on the plan list (C10 residue). Assumes A1-A3.",
       "CFG dominance / control-dependence rules + comparison-domain evaluation + sibling agreement",
       "DESIGN.md section 4 C08")
@@ -193,7 +193,7 @@ claim('C12', 'other',
       "DESIGN.md section 4 C12")
 
 claim('C13', 'other',
-      "bitWidth decided for all 2^32 arguments by evaluating the extracted expression on the end points of its own 33 threshold "
+      "bitWidth decided for all 2^32 arguments by evaluating the extracted expression (argument converted to the parameter's type first) on the end points of its own 33 threshold "
       "regions (after checking the argument is used in threshold tests only); cursor/width lock-step rule (cursor advances by "
       "exactly N, contiguous fields); writer/reader agreement on byte index, chunk start, chunk width, LSB-first, OR into a cleared "
       "buffer; type-level: the width derived for every state count 1..255 suffices. C13.d: bit-provenance abstract interpretation "
@@ -219,7 +219,7 @@ claim('C18', 'other',
       "Allocation-freedom from the AST (placement new only, no delete, allowed externals) cross-checked on the undefined symbols "
       "of compiled witness objects; payload/member alignment from the record layout; definite initialisation; constant or locally "
       "bounded shift amounts; positive extents; reinterpret_cast only on payload storage; interval reasoning on locally guarded "
-      "subscripts. Absence of out-of-bounds accesses for all histories is NOT decided (unguarded subscripts are counted as 'no verdict'). The byte storage behind every bit container has ceil(N/8) bytes for every N <= 255 (exhaustive type-level unit, C18.e). The task pool's slot indices stay inside its array by the per-operation vacant-list summaries (C18.f = C10.a/c) and every bit-container operation addresses only storage the container owns, for every capacity 1..255 and index (C18.g = the C20.e refinement).",
+      "subscripts. Absence of out-of-bounds accesses for all histories is NOT decided (unguarded subscripts are counted as 'no verdict'). The byte storage behind every bit container has ceil(N/8) bytes for every N <= 255 (exhaustive type-level unit, C18.e). The task pool's slot indices stay inside its array by the per-operation vacant-list summaries (C18.f = C10.a/c) and every bit-container operation addresses only storage the container owns, for every capacity 1..255 and index (C18.g = the C20.e refinement); the state ids the library itself feeds into single-index bit operations, the root head's invalid id included, are below the capacity (C18.h).",
       "Residue: value ranges of indices kept by data-structure invariants.",
       "AST effect rules + object symbol table + record layout + local interval analysis",
       "DESIGN.md section 4 C18")
